@@ -35,22 +35,23 @@ type sched struct {
 
 	// The fields below are touched by every task; in the race world only from
 	// //go:norace functions and only as fixed-size arrays.
-	cur       int
-	turn      int
-	alive     [maxTasks]bool
-	nAlive    int
-	waiting   [maxTasks]uintptr // R5: the lock a task is blocked on (0 = runnable)
-	lockWaits int
-	hung      [maxTasks]bool // the task sits in a Write that never returns ("hang" fault)
-	nHung     int
-	yields    int
-	maxYields int
-	switches  int
-	inLogSw   int
-	stay      int
-	mask      int
-	budget    string
-	finished  bool
+	cur         int
+	turn        int
+	alive       [maxTasks]bool
+	nAlive      int
+	waiting     [maxTasks]uintptr // R5: the lock a task is blocked on (0 = runnable)
+	lockWaits   int
+	allWaitSaid bool
+	hung        [maxTasks]bool // the task sits in a Write that never returns ("hang" fault)
+	nHung       int
+	yields      int
+	maxYields   int
+	switches    int
+	inLogSw     int
+	stay        int
+	mask        int
+	budget      string
+	finished    bool
 
 	// PCT-like mode: preempt exactly at these yield counts (ascending), nowhere else
 	pct     int
@@ -346,6 +347,9 @@ func (s *sched) hang() {
 	s.nHung++
 	others := s.runnableOthers(me)
 	if others == 0 {
+		if s.wakeSoft() {
+			select {}
+		}
 		for i := 1; i <= s.n; i++ {
 			if s.alive[i] && !s.hung[i] && s.waiting[i] != 0 {
 				s.deadlock(me, s.waiting[i])
@@ -384,6 +388,13 @@ func (s *sched) blocked(key uintptr) bool {
 	me := s.cur
 	others := s.runnableOthers(me)
 	if others == 0 {
+		if softKey(key) {
+			// a channel, condition variable or wait group (rule R7): somebody outside the scheduler's view (a timer, a
+			// goroutine of the library's own) may still wake this task, so it blocks for real; if nobody does, the Go
+			// runtime reports the deadlock and the marker says that every task was accounted for
+			s.allWait()
+			return false
+		}
 		// every live task waits for a lock: a deadlock of the library under this schedule
 		s.deadlock(me, key)
 		return false
@@ -413,10 +424,43 @@ func (s *sched) lockReleased(key uintptr) {
 		return
 	}
 	for i := 1; i <= s.n; i++ {
-		if s.waiting[i] == key {
+		if s.waiting[i] == key || (s.waiting[i] == selectKey && softKey(key)) {
 			s.waiting[i] = 0
 		}
 	}
+}
+
+// Keys of rule R7 (channels, condition variables, wait groups) are odd, lock keys (addresses) are even.
+//
+//go:norace
+func softKey(key uintptr) bool { return key&1 == 1 }
+
+// selectKey is what a task in a polling select waits for: any channel operation wakes it.
+const selectKey = ^uintptr(0)
+
+// allWait notes on stderr that the last runnable task is about to block for real while every other live task waits.
+//
+//go:norace
+func (s *sched) allWait() {
+	if !s.allWaitSaid {
+		s.allWaitSaid = true
+		os.Stderr.WriteString("verif: ALL-TASKS-WAIT: the last runnable task blocks on a channel, condition variable or wait group while every other live task waits\n")
+	}
+}
+
+// wakeSoft lets one task that waits for a channel (not a lock) run again when nobody else can: it will try once
+// more and then block for real. It reports whether there was one.
+//
+//go:norace
+func (s *sched) wakeSoft() bool {
+	for i := 1; i <= s.n; i++ {
+		if s.alive[i] && !s.hung[i] && s.waiting[i] != 0 && softKey(s.waiting[i]) {
+			s.waiting[i] = 0
+			s.release(i)
+			return true
+		}
+	}
+	return false
 }
 
 //go:norace
@@ -438,6 +482,9 @@ func (s *sched) exit(me int) {
 	}
 	run := s.runnableOthers(me)
 	if run == 0 {
+		if s.wakeSoft() {
+			return
+		}
 		// the finished task leaves only tasks that wait for a lock nobody will release
 		s.deadlock(me, 0)
 		return
